@@ -199,8 +199,9 @@ def run_cbmc(goto_file, unwind, unwindset, timeout_s, mem_gb, log_path, extra=No
     res["rc"] = rc
     if status == "timeout":
         res["status"] = "timeout"
-    elif not res.get("ok"):
+    elif not res.get("ok") or any(p.get("status") == "ERROR" for p in res["props"]):
         res["status"] = "error"
+        res["messages"] = (res.get("messages") or []) + ["cbmc reported status ERROR (out of memory or solver failure)"]
     else:
         res["status"] = "done"
     return res
@@ -254,6 +255,10 @@ def classify(props):
            "builtin_fail": [], "builtin_ok": 0, "reach": 0, "total": 0}
     for r in props:
         out["total"] += 1
+        if r.get("status") not in ("SUCCESS", "FAILURE", "SATISFIED", "UNSATISFIED"):
+            # solver error / out of memory: nothing was decided
+            out["errors"] = out.get("errors", 0) + 1
+            continue
         name = r.get("property", "")
         desc = r.get("description", "")
         status = r.get("status", "")
